@@ -158,7 +158,7 @@ def names_rule(ctx):
                     n_sites += 1
                     kw = {k.arg: k.value for k in n.keywords}
                     pv = kw.get("parameters")
-                    ok = (pv is not None and isinstance(pv, _ast.Attribute) and pv.attr == "parameters") or None in kw
+                    ok = (pv is not None and not (isinstance(pv, _ast.Constant) and pv.value is None)) or None in kw
                     if not ok:
                         # judged only when the set reaches the user's prior / likelihood from here (a scratch set that never does is not part of the target)
                         tgt_ = next((a_.targets[0].id for a_ in walk_no_nested(m.node) if isinstance(a_, _ast.Assign) and a_.value is n and len(a_.targets) == 1
@@ -173,7 +173,7 @@ def names_rule(ctx):
                                f"{n.func.id}(...) at line {n.lineno} is built without parameters=: the set handed to the user's prior / likelihood from here has the default names "
                                "x_0, x_1, ..., while every other evaluation (initial population, mutate) passes the real names -- a callable that addresses its columns by name "
                                "raises KeyError inside the kernel target only", disc=f"{n.func.id}#{rank}")
-    ctx.floor("sample-set constructions inside samplers (names)", n_sites, 9)
+    ctx.floor("sample-set constructions inside samplers (names)", n_sites, 4)
 
 
 def share_rule(ctx):
@@ -340,6 +340,36 @@ def run(ctx):
                disc="late-binding")
 
     names_rule(ctx)
+    # ---- a NaN anywhere in the target's ingredients ends as -inf at that point, never as an exception: the target builders (log_prob, and the methods of the
+    #      sampler they call) contain no `raise` that is conditioned on an isnan() test.  A check that is right for mutate() -- "log proposal contains NaN" -- raises
+    #      from inside the kernel when it is shared with the target, and the batch loses the finite values of its other points.
+    import ast as _ast3
+    smc_ = repo.cls("aspire.samplers.smc.base:SMCSampler")
+    bad_raise = []
+    n_tb = 0
+    for cls_ in [smc_] + list(repo.subclasses(smc_, strict=True)) + [repo.cls("aspire.samplers.mcmc:MCMCSampler")]:
+        lp_ = cls_.resolve("log_prob")
+        if lp_ is None:
+            continue
+        todo, seen_ = [lp_], set()
+        while todo:
+            f_ = todo.pop()
+            if f_.ident in seen_:
+                continue
+            seen_.add(f_.ident)
+            n_tb += 1
+            for n_ in walk_no_nested(f_.node):
+                if isinstance(n_, _ast3.If) and any(isinstance(x_, _ast3.Attribute) and x_.attr == "isnan" for x_ in _ast3.walk(n_.test)) and any(isinstance(b_, _ast3.Raise) for b_ in _ast3.walk(n_)):
+                    bad_raise.append((f_, n_, lp_))
+                if isinstance(n_, _ast3.Call) and isinstance(n_.func, _ast3.Attribute) and isinstance(n_.func.value, _ast3.Name) and n_.func.value.id == f_.params[0] \
+                        and n_.func.attr not in ("log_prior", "log_likelihood"):
+                    h_ = cls_.resolve(n_.func.attr)
+                    if h_ is not None and len(seen_) < 12:
+                        todo.append(h_)
+    ctx.decide(not bad_raise, "C05.nan", bad_raise[0][2].ident if bad_raise else "aspire.samplers", loc_of(bad_raise[0][0], bad_raise[0][1]) if bad_raise else "src/aspire/samplers",
+               f"no target builder raises on a NaN ingredient ({n_tb} functions reachable from the log_prob methods)",
+               (f"{bad_raise[0][0].ident.split(':')[1]}, which {bad_raise[0][2].ident.split(':')[1]} runs, raises under `{_ast3.unparse(bad_raise[0][1].test)[:60]}`: a kernel proposal at which the "
+                "proposal density is NaN aborts the run from inside the kernel instead of being given the target value -inf") if bad_raise else "", disc="no-raise")
     # ---- the tempered density of the sample classes (log_p_t: L^beta pi^beta q^(1-beta) in the native space) is turned into a kernel target in one place only, the
     #      sampler's log_prob(), which adds the preconditioning log-Jacobian and maps NaN to -inf.  A kernel that is handed log_p_t() directly (a pre-computed density
     #      of its starting points, say) compares densities with and without the Jacobian in its first accept / reject.
@@ -441,6 +471,10 @@ MUTANTS += [
 
 MUTANTS += [
     M("emcee is handed a pre-computed starting density without the preconditioning Jacobian", "src/aspire/samplers/smc/emcee.py", "sampler.run_mcmc(z, **kwargs)", "sampler.run_mcmc(emcee.State(z, log_prob=particles.log_p_t(beta)), **kwargs)", "C05.id"),
+]
+
+MUTANTS += [
+    M("the kernel target raises when the proposal density is NaN", _B, "samples.log_q = samples.array_to_namespace(log_q)\n        samples.log_prior = self.log_prior(samples)", "samples.log_q = samples.array_to_namespace(log_q)\n        if self.xp.isnan(samples.log_q).any():\n            raise ValueError(\"Log proposal contains NaN values\")\n        samples.log_prior = self.log_prior(samples)", "C05.nan", within="SMCSampler.log_prob"),
 ]
 
 NEUTRALS = [
